@@ -53,7 +53,8 @@ class SocketTransport(CPXTransport):
         # the prefix describes the bytes that follow; packet.length is not refreshed when data is assigned
         data = bytearray(struct.pack('H', len(packet.data)+2))
         data += packet.wireData
-        self._socket.send(data)
+        # send() may take only part of the buffer; the rest of the frame must not be lost
+        self._socket.sendall(data)
 
     def _readData(self, size):
         data = bytearray()
